@@ -144,7 +144,7 @@ def gen_design(rng, i: int) -> dict | None:
     t0 = rng.choice(d['targetons'])
     # the variant under study: starts inside a targeton
     kinds = ['syn', 'aa', 'aa', 'non', 'stopstop', 'mnv', 'inframe_indel', 'fs_indel', 'fs_indel', 'intron_into_exon', 'nc_snv', 'nc_indel', 'pam_on_bg',
-             'junction_aa', 'junction_syn', 'pam_on_del', 'junction_aa', 'junction_aa']
+             'junction_aa', 'junction_syn', 'pam_on_del', 'junction_aa', 'junction_aa', 'straddle_end']
     kind = kinds[i % len(kinds)]
     coding_pos = [p for p in range(t0['ref_start'] + 1, t0['ref_end'] - 7) if inex(p) and fr.codon_positions(p) and p not in pam_pos]
     nonc_pos = [p for p in range(t0['ref_start'] + 1, t0['ref_end'] - 7) if not any(inex(q) for q in range(p - 2, p + 8)) and p not in pam_pos]
@@ -206,6 +206,18 @@ def gen_design(rng, i: int) -> dict | None:
                 alt = ''.join(rng.choice([c for c in 'ACGT' if c != U[q - 1]]) for q in range(p, p + ln))
                 ok = add({'pos': p, 'ref': U[p - 1:p - 1 + ln], 'alts': [alt]}, list(range(p, p + ln)))
                 break
+    elif kind == 'straddle_end':
+        # a multi-base substitution that starts on the last bases of the targeton and ends beyond it, inside one exon (a large exon tiled by
+        # several targetons): it starts in this targeton, so it is judged here
+        lo_ = t0['r2_end'] + t0['ext'][1]
+        ends = [q for q in range(max(lo_, t0['ref_start'] + 8), t0['ref_end'] + 1) if all(inex(x) and fr.codon_positions(x) for x in range(q - 1, q + 4))
+                and not any(x in pam_pos for x in range(q - 1, q + 4))]
+        if ends:
+            t0['ref_end'] = rng.choice(ends)
+            p = t0['ref_end'] - rng.choice([0, 0, 1])
+            ln = rng.choice([2, 3]) if p == t0['ref_end'] else 3
+            alt = ''.join(rng.choice([c for c in 'ACGT' if c != U[q - 1]]) for q in range(p, p + ln))
+            ok = add({'pos': p, 'ref': U[p - 1:p - 1 + ln], 'alts': [alt]}, list(range(p, p + ln)))
     elif kind == 'pam_on_del':
         # a coding deletion and a PAM edit of the targeton's guide on one of the deleted bases: refused whatever the force flags
         ln = rng.choice([1, 2, 3, 3, 6])
